@@ -87,7 +87,8 @@ Definition Jinv (f : list nat) (acc : list fentry) : Prop :=
   (forall k v, pf_get q k = Some v -> nth_error f k = Some v) /\
   (forall e k v, In e acc -> pf_get (snd e) k = Some v -> nth_error f k = Some v) /\
   (forall e, In e acc -> In e st /\ compatible q (snd e)) /\
-  (forall e1 e2, In e1 acc -> In e2 acc -> compatible (snd e1) (snd e2)).
+  (forall e1 e2, In e1 acc -> In e2 acc -> compatible (snd e1) (snd e2)) /\
+  (forall k, pf_get q k = None -> (forall e, In e acc -> pf_get (snd e) k = None) -> nth_error f k = nth_error F k).
 
 Lemma named_lt : forall pf k v, pf_okb F pf = true -> pf_get pf k = Some v -> exists s, nth_error F k = Some s /\ v < s.
 Proof. intros pf k v H Hg. unfold pf_okb in H. unfold pf_get in Hg. eapply pf_get_range; eauto. Qed.
@@ -99,7 +100,7 @@ Lemma entry_step : forall f acc e, Jinv f acc -> In e st ->
   exists b, rc_match F f (fst (snd e)) (snd (snd e)) = Ok b /\
     (b = true -> exists f', rc_assign f (fst (snd e)) (snd (snd e)) = Ok f' /\ Jinv f' (acc ++ [e])).
 Proof.
-  intros f acc e (Hl & Jq & Ja & Js & Jp) He. pose proof (Hst e He) as Hpf. unfold pf_okb in Hpf.
+  intros f acc e (Hl & Jq & Ja & Js & Jp & Ju) He. pose proof (Hst e He) as Hpf. unfold pf_okb in Hpf.
   destruct (rc_match_spec F _ _ 0 f Hpf Hl) as [b [Eb Hb]]. exists b. split; auto. intros ->.
   pose proof (proj1 Hb eq_refl) as Hm. clear Hb.
   destruct (rc_assign_spec F _ _ 0 f Hpf Hl) as [f' [Ef [Hl' Hn]]]. exists f'. split; auto.
@@ -110,7 +111,7 @@ Proof.
   assert (Hkeep : forall k v, nth_error f k = Some v -> (exists s, nth_error F k = Some s /\ v < s) -> nth_error f' k = Some v).
   { intros k v Hv Hs. rewrite Hn. fold (pf_get (snd e) k). destruct (pf_get (snd e) k) as [w|] eqn:Ew; auto.
     f_equal. eapply Hagree; eauto. }
-  split; auto. split; [|split; [|split]].
+  split; auto. split; [|split; [|split; [|split]]].
   - intros k v Hg. apply Hkeep; [apply Jq; auto|]. apply (named_lt q k v Hq Hg).
   - intros e' k v He' Hg. apply in_app_or in He'. destruct He' as [He'|[<-|[]]].
     + apply Hkeep; [eapply Ja; eauto|]. apply (named_lt (snd e') k v); auto. apply Hst. apply Js. auto.
@@ -127,6 +128,10 @@ Proof.
     + pose proof (pairs_get (snd e) k v (Hst _ He) Hin) as Hg.
       symmetry. apply (Hagree k v w Hg (Ja e2 k w H2 Hw)). apply (named_lt (snd e2) k w); auto. apply Hst. apply Js. auto.
     + pose proof (pairs_get (snd e) k v (Hst _ He) Hin) as Hg. congruence.
+  - intros k Hqn Hall. rewrite Hn. fold (pf_get (snd e) k).
+    assert (He1 : In e (acc ++ [e])) by (apply in_or_app; right; left; reflexivity).
+    rewrite (Hall e He1). apply Ju; auto.
+    intros e' He'. apply Hall. apply in_or_app; auto.
 Qed.
 
 Variable remove : bool.
@@ -269,18 +274,46 @@ Proof.
   destruct (rc_factors ord0 (fF t) remove ordv keysS f0 []) as [[[keys1 f1] acc1]| |] eqn:E1; cbn [bind] in H; try discriminate.
   inversion H; subst t' entries f'. cbn [fkeys fF].
   assert (HJ0 : Jinv (fF t) q st f0 []).
-  { split; auto. split; [|split; [|split]].
+  { split; auto. split; [|split; [|split; [|split]]].
     - intros k v Hg. rewrite Hn0. unfold pf_get in Hg. rewrite Hg. reflexivity.
     - intros e k v [].
     - intros e [].
-    - intros e1 e2 []. }
+    - intros e1 e2 [].
+    - intros k Hk _. rewrite Hn0. unfold pf_get in Hk. rewrite Hk. reflexivity. }
   pose proof (shuffle_flat _ _ Hsh) as Hfl.
   assert (Hin : forall e, In e (flat keysS) -> In e st).
   { intros e He. eapply Permutation_in; [exact Hperm|]. eapply Permutation_in; [apply Permutation_sym; exact Hfl|exact He]. }
   destruct (rc_factors_spec (fF t) q st Hq Hst remove ordv ord0 keysS f0 [] keys1 f1 acc1 E1 HJ0 Hin) as [new [-> [HJ Hp]]].
-  cbn [app] in *. destruct HJ as (Hl & Jq & Ja & Js & Jp).
+  cbn [app] in *. destruct HJ as (Hl & Jq & Ja & Js & Jp & Ju).
   split; auto. split; auto. split; auto. split; auto. split; auto. split; auto.
   eapply perm_trans; [exact Hp|]. eapply perm_trans; [apply Permutation_sym; exact Hfl|exact Hperm].
+Qed.
+
+(* the whole invariant at the end of the call (used for the exact value of the returned factors) *)
+Lemma reconstruct_J : forall t c st q remove ord0 ordv keysS t' entries f',
+  FInv2 t (c, st) -> pf_okb (fF t) q = true -> shuffle_of (fkeys t) keysS ->
+  ft_reconstruct t q remove ord0 ordv keysS = Ok (t', entries, f') -> Jinv (fF t) q st f' entries.
+Proof.
+  intros t c st q remove ord0 ordv keysS t' entries f' [HInv Hperm] Hq Hsh H. cbn [snd] in Hperm.
+  destruct HInv as (_ & _ & _ & Hok & _). cbn [fst snd] in Hok.
+  assert (Hst : forall e, In e st -> pf_okb (fF t) (snd e) = true).
+  { intros e He. destruct Hok as [_ Hf]. rewrite Forall_forall in Hf. apply Hf; auto. }
+  unfold ft_reconstruct in H. pose proof Hq as Hq'. unfold pf_okb in Hq'.
+  destruct (rc_assign_spec (fF t) _ _ 0 (fF t) Hq' eq_refl) as [f0 [E0 [Hl0 Hn0]]]. rewrite E0 in H. cbn [bind] in H.
+  destruct (rc_factors ord0 (fF t) remove ordv keysS f0 []) as [[[keys1 f1] acc1]| |] eqn:E1; cbn [bind] in H; try discriminate.
+  inversion H; subst t' entries f'.
+  assert (HJ0 : Jinv (fF t) q st f0 []).
+  { split; auto. split; [|split; [|split; [|split]]].
+    - intros k v Hg. rewrite Hn0. unfold pf_get in Hg. rewrite Hg. reflexivity.
+    - intros e k v [].
+    - intros e [].
+    - intros e1 e2 [].
+    - intros k Hk _. rewrite Hn0. unfold pf_get in Hk. rewrite Hk. reflexivity. }
+  pose proof (shuffle_flat _ _ Hsh) as Hfl.
+  assert (Hin : forall e, In e (flat keysS) -> In e st).
+  { intros e He. eapply Permutation_in; [exact Hperm|]. eapply Permutation_in; [apply Permutation_sym; exact Hfl|exact He]. }
+  destruct (rc_factors_spec (fF t) q st Hq Hst remove ordv ord0 keysS f0 [] keys1 f1 acc1 E1 HJ0 Hin) as [new [-> [HJ _]]].
+  exact HJ.
 Qed.
 
 (* with remove = true the returned entries are gone from the buckets and no id is returned twice *)
